@@ -26,6 +26,13 @@ def value_eq(a, b, path='') -> Any:
     from vc.pyvc.interp import MList, MDict, MSet
     if a is b:
         return True
+    if type(a).__name__ == 'JoinedTokens' and type(b).__name__ == 'JoinedTokens':
+        if a.sep != b.sep:
+            return False
+        ta, tb = a.tokens, b.tokens
+        if isinstance(ta, list) and isinstance(tb, list):
+            return value_eq(tuple(ta), tuple(tb), path)
+        return value_eq(ta, tb, path)
     if isinstance(a, SObj) and isinstance(b, SObj):
         if a.cls is not b.cls:
             return False
